@@ -6,6 +6,7 @@ parent's queues ("every record is in exactly one of: not yet put / on the log qu
 namespace Lt.Log
 
 deriving instance DecidableEq for Rec
+deriving instance DecidableEq for Exit
 
 /-! ## proxy -/
 
@@ -370,6 +371,87 @@ theorem inv_loop (n : Nat) (recs : Nat → List Rec) : ∀ (sched : List Round) 
     split
     · exact ⟨h, hq⟩
     · exact ih _ (inv_waitRound n recs s r h) (waitRound_logq s r)
+
+theorem inv_runLoop (n : Nat) (recs : Nat → List Rec) (cof : Bool) (fails : Nat → Bool) :
+    ∀ (sched : List Round) (s : St), Inv n recs s → s.logq = [] →
+    Inv n recs (runLoop cof fails s sched).1 ∧ (runLoop cof fails s sched).1.logq = [] := by
+  intro sched
+  induction sched with
+  | nil => intro s h hq; exact ⟨h, hq⟩
+  | cons r rs ih =>
+    intro s h hq
+    simp only [runLoop]
+    split
+    · exact ⟨h, hq⟩
+    · split
+      · exact ⟨inv_waitRound n recs s r h, waitRound_logq s r⟩
+      · exact ih _ (inv_waitRound n recs s r h) (waitRound_logq s r)
+
+/-- with `continue_on_failure=True` the loop never raises: it is the plain loop -/
+theorem runLoop_cof (fails : Nat → Bool) : ∀ (sched : List Round) (s : St),
+    (runLoop true fails s sched).1 = loop s sched := by
+  intro sched
+  induction sched with
+  | nil => intro s; rfl
+  | cons r rs ih =>
+    intro s
+    simp only [runLoop, loop]
+    split
+    · rfl
+    · exact ih _
+
+theorem runLoop_returned (cof : Bool) (fails : Nat → Bool) : ∀ (sched : List Round) (s : St),
+    (runLoop cof fails s sched).2 = .returned → allConsumed (runLoop cof fails s sched).1 = true := by
+  intro sched
+  induction sched with
+  | nil =>
+    intro s h
+    simp only [runLoop] at h ⊢
+    split at h
+    · assumption
+    · exact Exit.noConfusion h
+  | cons r rs ih =>
+    intro s h
+    simp only [runLoop] at h ⊢
+    split
+    · assumption
+    · next hnc =>
+      simp only [hnc] at h
+      split
+      · next heq => simp only [heq] at h; exact Exit.noConfusion h
+      · next heq => simp only [heq] at h; exact ih _ h
+
+/-- a raise is for a worker that failed and whose outcome this `wait` had taken -/
+theorem runLoop_raised (cof : Bool) (fails : Nat → Bool) (f : Nat) : ∀ (sched : List Round) (s : St),
+    (runLoop cof fails s sched).2 = .raised f →
+      cof = false ∧ fails f = true ∧ f ∈ (runLoop cof fails s sched).1.consumed := by
+  intro sched
+  induction sched with
+  | nil =>
+    intro s h
+    simp only [runLoop] at h
+    split at h <;> exact Exit.noConfusion h
+  | cons r rs ih =>
+    intro s h
+    simp only [runLoop] at h ⊢
+    split
+    · next hc => simp only [hc, if_true] at h; exact Exit.noConfusion h
+    · next hnc =>
+      simp only [hnc] at h
+      split
+      · next w heq =>
+        simp only [heq] at h
+        have hw : w = f := by injection h
+        subst hw
+        cases cof with
+        | true => simp at heq
+        | false =>
+          simp only [Bool.false_eq_true, if_false] at heq
+          have h1 := List.find?_some heq
+          have h2 := List.mem_of_find?_eq_some heq
+          simp only [yieldOrder, List.mem_filter, Bool.and_eq_true, List.contains_iff_mem] at h2
+          exact ⟨rfl, h1, h2.2.1⟩
+      · next heq => simp only [heq] at h; exact ih _ h
 
 theorem mem_consumed_of_all (s : St) (h : allConsumed s = true) (w : Nat) (hw : w < s.n) : w ∈ s.consumed := by
   simp only [allConsumed, List.all_eq_true, List.mem_range, List.contains_iff_mem] at h
